@@ -22,7 +22,14 @@ SYSTEM = "andes/system.py"
 
 def rule_resume(ctx, repo):
     d = F.method(repo, "DAE", "__init__", DAE)
-    ok = Q.has("self.t = np.array(-1.0, dtype=float)", d.fn)
+    # the sentinel: a NumPy scalar array holding a negative constant (any spelling of the dtype)
+    ok = False
+    for st_ in walk_noscope(d.fn):
+        if isinstance(st_, ast.Assign) and dotted(st_.targets[0]) == "self.t" and isinstance(st_.value, ast.Call) \
+                and (dotted(st_.value.func) or "").endswith("array") and st_.value.args:
+            a0 = st_.value.args[0]
+            val = a0.operand.value if isinstance(a0, ast.UnaryOp) and isinstance(a0.op, ast.USub) and isinstance(a0.operand, ast.Constant) else None
+            ok = ok or (val is not None and val > 0)
     ctx.check(ok, "C14.resume", "DAE.__init__/sentinel", "t = -1 before any dynamic initialisation",
               "the not-yet-initialised sentinel DAE.t = -1 changed", d.W())
     r = F.method(repo, "TDS", "run", TDS)
